@@ -1866,3 +1866,86 @@ Proof.
   split; [exact A|]. split; [exact B|]. intro f. apply matched_skips_sub. exact A.
 Qed.
 End SubPlaceholders.
+
+(* ---------- who is asked for a command-line target (control.py 225-247): the candidates are exactly `matched` ---------- *)
+Section Candidates.
+Variable sv : selver.
+Variable base_of : name -> name.
+Variable is_rx : name -> bool.
+Variable rmatch : name -> name -> bool.
+Variable rx_name : name -> name -> name.
+Variable auto : bool.
+Local Notation matched := (Delayed.matched sv is_rx rmatch auto).
+Local Notation add_rx := (Delayed.add_rx rx_name).
+Local Notation filter_one := (Delayed.filter_one sv base_of is_rx rmatch rx_name auto).
+
+(* membership in `matched`, spelled out: a placeholder (not a `_regex_target` task, not a by-name sub-task placeholder) whose
+   loader DECLARES a regex that matches f, or declares none while --auto-delayed-regex is on *)
+Lemma matched_iff d order sub f k :
+  In k (matched d order sub f) <->
+  In k order /\ is_rx k = false /\ skip_sub sv sub k = false /\
+  exists T, dt_loader (tab_get d k) = Some T /\ (if l_has_regex (q_ld d T) then rmatch T f = true else auto = true).
+Proof.
+  unfold Delayed.matched. rewrite filter_In. split.
+  - intros [Ho H]. destruct (dt_loader (tab_get d k)) as [T|] eqn:EL; [|discriminate].
+    destruct (is_rx k) eqn:ER; [discriminate|]. destruct (skip_sub sv sub k) eqn:ES; [discriminate|].
+    repeat split; auto. exists T. split; [reflexivity|]. destruct (l_has_regex (q_ld d T)); exact H.
+  - intros (Ho & ER & ES & T & EL & H). split; [exact Ho|]. rewrite EL, ER, ES.
+    destruct (l_has_regex (q_ld d T)); exact H.
+Qed.
+
+(* a declared target_regex that does not match f: never a candidate, whatever --auto-delayed-regex says *)
+Lemma declared_mismatch_not_matched d order sub f k T :
+  dt_loader (tab_get d k) = Some T -> l_has_regex (q_ld d T) = true -> rmatch T f = false -> ~ In k (matched d order sub f).
+Proof.
+  intros EL HR HM H. apply matched_iff in H. destruct H as (_ & _ & _ & T' & EL' & H).
+  rewrite EL in EL'. inversion EL'; subst T'. rewrite HR in H. congruence.
+Qed.
+
+Lemma add_rx_fold g f : forall ms s0,
+  (forall k, is_rx (rx_name f k) = true) ->
+  (forall k, In k ms -> is_rx k = false /\ exists T, dt_loader (tab_get (ss_d s0) k) = Some T) ->
+  q_torun (ss_d (fold_left (add_rx g f) ms s0)) = q_torun (ss_d s0) ++ map (rx_name f) ms /\
+  q_grp (ss_d (fold_left (add_rx g f) ms s0)) = q_grp (ss_d s0).
+Proof.
+  induction ms as [|k r IH]; intros s0 Hrx H; simpl.
+  - rewrite app_nil_r. split; reflexivity.
+  - destruct (H k (or_introl eq_refl)) as [Hk [T ET]].
+    assert (A : q_torun (ss_d (add_rx g f s0 k)) = q_torun (ss_d s0) ++ [rx_name f k] /\
+                q_grp (ss_d (add_rx g f s0 k)) = q_grp (ss_d s0) /\
+                forall x, x <> rx_name f k -> tab_get (ss_d (add_rx g f s0 k)) x = tab_get (ss_d s0) x).
+    { unfold Delayed.add_rx. rewrite ET. simpl. repeat split.
+      intros x Hx. unfold tab_get; simpl. unfold upd. destruct (N.eqb_spec x (rx_name f k)); [contradiction | reflexivity]. }
+    destruct A as (A1 & A2 & A3).
+    destruct (IH (add_rx g f s0 k) Hrx) as [B1 B2].
+    { intros x Hx. destruct (H x (or_intror Hx)) as [Rx [Tx ETx]]. split; [exact Rx|]. exists Tx.
+      rewrite A3; [exact ETx|]. intro Heq. rewrite Heq, Hrx in Rx. discriminate. }
+    rewrite B1, B2, A1, A2, <- app_assoc. split; reflexivity.
+Qed.
+
+Theorem regex_candidates_exact s f s' :
+  q_tab (ss_d s) f = None -> q_tg (ss_d s) f = None -> q_tab (ss_d s) (base_of f) = None ->
+  (forall k, is_rx (rx_name f k) = true) ->
+  filter_one s f = Some s' ->
+  let ms := matched (ss_d s) (ss_order s) (ss_sub s) f in
+  ms <> [] /\
+  q_torun (ss_d s') = q_torun (ss_d s) ++ map (rx_name f) ms /\
+  q_grp (ss_d s') (ss_gnext s) = Build_rgroup f ms false /\
+  (forall k, In k ms <->
+     In k (ss_order s) /\ is_rx k = false /\ skip_sub sv (ss_sub s) k = false /\
+     exists T, dt_loader (tab_get (ss_d s) k) = Some T /\
+               (if l_has_regex (q_ld (ss_d s) T) then rmatch T f = true else auto = true)) /\
+  (forall k T, dt_loader (tab_get (ss_d s) k) = Some T -> l_has_regex (q_ld (ss_d s) T) = true -> rmatch T f = false -> ~ In k ms).
+Proof.
+  intros H1 H2 H3 Hrx E. cbv zeta.
+  remember (matched (ss_d s) (ss_order s) (ss_sub s) f) as ms eqn:Ems.
+  unfold Delayed.filter_one in E. rewrite H1, H2, H3 in E. rewrite <- Ems in E.
+  destruct (is_nil ms) eqn:En; [discriminate|]. injection E as E'. subst s'.
+  match goal with |- context [fold_left ?F ms ?S0] => destruct (add_rx_fold (ss_gnext s) f ms S0 Hrx) as [B1 B2] end.
+  { intros k Hk. rewrite Ems in Hk. pose proof (proj1 (matched_iff _ _ _ _ _) Hk) as (_ & ER & _ & T & ET & _).
+    split; [exact ER|]. exists T. exact ET. }
+  split; [intro Hn; rewrite Hn in En; discriminate|]. split; [exact B1|]. split.
+  - rewrite B2. simpl. apply upd_same.
+  - rewrite Ems. split; [intro k; apply matched_iff | intros k T; apply declared_mismatch_not_matched].
+Qed.
+End Candidates.
